@@ -267,6 +267,63 @@ func c03Mutate(c *fw.Ctx, corpus [][]byte) []byte {
 	return x
 }
 
+// c03BufferReuse: the signature checks must be functions of the header they are given,
+// not of its address: groups of equal-length inputs are detected one after the other in
+// ONE buffer (same &buf[0], same len) with nothing in between; only afterwards is each
+// reported hierarchy compared with the reference walk over a private copy.
+func c03BufferReuse(c *fw.Ctx) {
+	mimetype.VerifResetTree()
+	t := lib.Snapshot()
+	buf := make([]byte, 1<<16)
+	groups := c19LengthGroups(c.Rand, len(buf))
+	// seeds of equal length (after padding to a common length with their own bytes) as well
+	seeds := lib.Seeds()
+	for _, L := range []int{512, 1024, 3072} {
+		var g [][]byte
+		for _, s := range seeds {
+			if len(s) >= L && len(g) < 40 {
+				g = append(g, s[:L])
+			}
+		}
+		groups[-L] = g
+	}
+	for n, g := range groups {
+		if len(g) < 2 {
+			continue
+		}
+		if n < 0 {
+			n = -n
+		}
+		for pass := 0; pass < 2; pass++ {
+			got := make([]string, len(g))
+			order := make([]int, len(g))
+			for i := range g {
+				order[i] = i
+				if pass == 1 {
+					order[i] = len(g) - 1 - i
+				}
+			}
+			mimetype.SetLimit(0)
+			for _, j := range order {
+				copy(buf, g[j])
+				got[j] = lib.ChainOf(mimetype.Detect(buf[:n])).Bare()
+			}
+			c.Eval(int64(len(g)))
+			for _, j := range order {
+				priv := append([]byte(nil), g[j]...)
+				path := t.Walk(priv, 0)
+				want := t.ChainOfID(path[len(path)-1]).Bare()
+				if got[j] != want {
+					c.Violate("walk-mismatch", fw.InputKey(g[j], 0, "Detect/reused-buffer"), fmt.Sprintf("a %d-byte input detected in a buffer that held other inputs of the same length before is reported as %s; the first-match walk over a private copy of the same bytes gives %s", n, got[j], want), c03Payload{In: g[j], Entry: "buffer-reuse", InQ: fw.Quote(g[j], 60)})
+					return
+				}
+			}
+		}
+		c.Count("buffer_reuse_groups", 1)
+		c.Distinct(fmt.Sprintf("reuse|%d|%d", n, len(g)))
+	}
+}
+
 // c03LimitSetter hands out its bytes and calls SetLimit while doing so.
 type c03LimitSetter struct {
 	b   []byte
@@ -526,6 +583,10 @@ func c03Run(c *fw.Ctx, b fw.Batch) {
 		c03ConcurrentLimit(c, b.N)
 		return
 	}
+	if b.Kind == "buffer-reuse" {
+		c03BufferReuse(c)
+		return
+	}
 	r := c.Rand
 	seeds := lib.Seeds()
 	base := baseTree()
@@ -610,6 +671,7 @@ func init() {
 			}
 			bs := batches("trees", 16, n, 3000)
 			bs = append(bs, batches("concurrent-limit", 2, n*2000, 3000)...)
+			bs = append(bs, batches("buffer-reuse", 1, 0, 3000)...)
 			ce := batches("concurrent-extend", 4, n*3, 3000)
 			for i := range ce {
 				ce[i].Env = []string{fmt.Sprintf("GOMAXPROCS=%d", []int{2, 4, 8, 16}[i])}
@@ -625,6 +687,10 @@ func init() {
 			}
 			if p.Entry == "concurrent-extend" {
 				c03ConcurrentExtend(c, 300)
+				return
+			}
+			if p.Entry == "buffer-reuse" {
+				c03BufferReuse(c)
 				return
 			}
 			if p.Entry == "concurrent-limit" {
